@@ -17,6 +17,7 @@
       inverse"), Polynomial.matrix / derivMatrix / CollisionArray.changeBasis (the three
       per-factor facts of [operator_factorisation_partial], validated by the harness). *)
 From Coq Require Import Reals Lra List Bool Arith Lia.
+From Coquelicot Require Import Coquelicot.
 From WG Require Import Lib.NumpySem Lib.BoltzLin.
 From GenC12 Require Import Boltz.
 Import ListNotations.
@@ -70,6 +71,144 @@ Lemma collision_is_local TChi a al be ga b i j k :
 Proof. unfold_model. unfold b_temperature. ring. Qed.
 
 End C12.
+
+(** ** (1') the source IS minus the Liouville operator applied to the local equilibrium
+    distribution  f_eq = 1/(exp(E_pl/T) -+ 1),  E_pl = gamma(v) (E - v pz),  E = sqrt(m^2+pz^2+pp^2):
+    for ANY differentiable profiles T, v, m^2 of chi whose values and derivatives at the
+    collocation point are the ones the code uses,
+        source = - ( K1 * d f_eq/d chi  -  K2 * d f_eq/d pz * dpz/drz ),
+    K1, K2 being the coefficients of d/dchi and d/drz in the generated Liouville operator
+    ([operator_is_opform]).  This ties every coefficient of the source (and `_dfeq` to `_feq`)
+    to the operator on the left-hand side: the linear system is the linearised Boltzmann
+    equation  L[f_eq + delta f] = -C[delta f], not merely some linear system. *)
+(* the equilibrium distribution without the overflow guard *)
+Definition feq_in (s x : R) : R := 1 / (exp x - s).
+
+Lemma dfeq_derivative e s x :
+  s * s = 1 -> ~ maxexp e < x -> exp x - s <> 0 ->
+  is_derive (feq_in s) x (b__dfeq e x s).
+Proof.
+  intros Hs Hx Hne. unfold feq_in, b__dfeq.
+  destruct (Rlt_dec (maxexp e) x); [contradiction|].
+  auto_derive; [assumption|].
+  assert (He : exp x <> 0) by (apply Rgt_not_eq, exp_pos).
+  rewrite exp_Ropp.
+  assert (Hd : exp x - 2 * s + / exp x <> 0).
+  { replace (exp x - 2 * s + / exp x) with ((exp x - s) * (exp x - s) / exp x).
+    - unfold Rdiv. apply Rmult_integral_contrapositive_currified.
+      + apply Rmult_integral_contrapositive_currified; assumption.
+      + apply Rinv_neq_0_compat; assumption.
+    - field_simplify_eq; [|assumption]. replace (s ^ 2) with (s * s) by ring. rewrite Hs. ring. }
+  field_simplify_eq.
+  - replace (s ^ 2) with (s * s) by ring. rewrite Hs. ring.
+  - repeat split; [assumption| |lra].
+    intros H. apply Hd.
+    replace (exp x - 2 * s + / exp x) with (((exp x - 2 * s) * exp x + 1) / exp x) by (field; assumption).
+    rewrite H. unfold Rdiv. ring.
+Qed.
+
+
+
+Lemma feq_guard e s x : ~ maxexp e < x -> b__feq e x s = feq_in s x.
+Proof. intros H. unfold b__feq, feq_in. destruct (Rlt_dec (maxexp e) x); [contradiction|reflexivity]. Qed.
+
+Section Physics.
+Variable e : env.
+Variables a al be ga : nat.
+Variables T v m2 : R -> R.          (* smooth background profiles, as functions of chi *)
+Variable chi0 : R.                  (* the collocation point *)
+Variables T' v' m' : R.
+Hypothesis HT : is_derive T chi0 T'.
+Hypothesis Hv : is_derive v chi0 v'.
+Hypothesis Hm : is_derive m2 chi0 m'.
+Hypothesis ET : T chi0 = Tprof e (S al).
+Hypothesis Ev : v chi0 = vprof e (S al).
+Hypothesis Em : m2 chi0 = msqprof e a (S al).
+Let pz0 := pzv e be.
+Let pp0 := ppv e ga.
+Let s := stat e a.
+Definition Epl (chi pz : R) : R :=
+  (1 / sqrt (1 - v chi ^ 2)) * (sqrt (m2 chi + pz ^ 2 + pp0 ^ 2) - v chi * pz).
+Definition xarg (chi pz : R) : R := Epl chi pz / T chi.
+Definition Feq (chi pz : R) : R := feq_in s (xarg chi pz).
+Hypothesis HT0 : T chi0 <> 0.
+Hypothesis Hv0 : 0 < 1 - v chi0 ^ 2.
+Hypothesis HE0 : 0 < m2 chi0 + pz0 ^ 2 + pp0 ^ 2.
+Hypothesis Hs : s * s = 1.
+Hypothesis Hx : ~ maxexp e < xarg chi0 pz0.
+Hypothesis Hne : exp (xarg chi0 pz0) - s <> 0.
+Hypothesis Hd : dpzdrz e be <> 0.
+Let w := sqrt (1 - v chi0 ^ 2).
+Let E := sqrt (m2 chi0 + pz0 ^ 2 + pp0 ^ 2).
+
+Lemma w_pos : 0 < w. Proof. apply sqrt_lt_R0; assumption. Qed.
+Lemma E_pos : 0 < E. Proof. apply sqrt_lt_R0; assumption. Qed.
+
+Lemma xarg_dchi : is_derive (fun c => xarg c pz0) chi0
+  (((v chi0 * v' / (w * w * w)) * (E - v chi0 * pz0) + (1 / w) * (m' / (2 * E) - v' * pz0)) / T chi0
+   - (1 / w * (E - v chi0 * pz0)) * T' / (T chi0 * T chi0)).
+Proof.
+  pose proof w_pos. pose proof E_pos.
+  unfold xarg, Epl. auto_derive.
+  - repeat split; try (eexists; eassumption); try assumption;
+      try (apply Rgt_not_eq, sqrt_lt_R0; assumption).
+  - replace (Derive (fun x => T x) chi0) with T' by (symmetry; apply is_derive_unique; exact HT).
+    replace (Derive (fun x => v x) chi0) with v' by (symmetry; apply is_derive_unique; exact Hv).
+    replace (Derive (fun x => m2 x) chi0) with m' by (symmetry; apply is_derive_unique; exact Hm).
+    replace (1 + - (v chi0 * (v chi0 * 1))) with (1 - v chi0 ^ 2) by ring.
+    replace (m2 chi0 + pz0 * (pz0 * 1) + pp0 * (pp0 * 1)) with (m2 chi0 + pz0 ^ 2 + pp0 ^ 2) by ring.
+    fold w E. field. repeat split; lra.
+Qed.
+
+Lemma xarg_dpz : is_derive (fun p => xarg chi0 p) pz0 ((1 / w) * (pz0 / E - v chi0) / T chi0).
+Proof.
+  pose proof w_pos. pose proof E_pos.
+  unfold xarg, Epl. auto_derive.
+  - repeat split; try assumption; try (apply Rgt_not_eq, sqrt_lt_R0; assumption).
+  - replace (m2 chi0 + pz0 * (pz0 * 1) + pp0 * (pp0 * 1)) with (m2 chi0 + pz0 ^ 2 + pp0 ^ 2) by ring.
+    replace (1 - v chi0 * (v chi0 * 1)) with (1 - v chi0 ^ 2) by ring.
+    fold w E. field. repeat split; lra.
+Qed.
+
+Theorem source_is_minus_liouville_feq dM dT dv DFchi DFpz :
+  dM a al = m' -> dT al = T' -> dv al = v' ->
+  is_derive (fun c => Feq c pz0) chi0 DFchi ->
+  is_derive (fun p => Feq chi0 p) pz0 DFpz ->
+  source_k e dM dT dv a al be ga
+  = - (K1 e a al be ga a * DFchi - K2 e dM a al be a * (DFpz * dpzdrz e be)).
+Proof.
+  intros HdM HdT Hdv H1 H2.
+  pose proof w_pos as Hw. pose proof E_pos as HE.
+  pose proof (dfeq_derivative e s (xarg chi0 pz0) Hs Hx Hne) as Hf.
+  assert (D1 : DFchi = b__dfeq e (xarg chi0 pz0) s *
+     (((v chi0 * v' / (w * w * w)) * (E - v chi0 * pz0) + (1 / w) * (m' / (2 * E) - v' * pz0)) / T chi0
+      - (1 / w * (E - v chi0 * pz0)) * T' / (T chi0 * T chi0))).
+  { rewrite <- (is_derive_unique _ _ _ H1). apply is_derive_unique.
+    unfold Feq. evar_last.
+    - apply (is_derive_comp (feq_in s) (fun c => xarg c pz0)); [exact Hf | exact xarg_dchi].
+    - unfold scal; cbn; unfold mult; cbn. ring. }
+  assert (D2 : DFpz = b__dfeq e (xarg chi0 pz0) s * ((1 / w) * (pz0 / E - v chi0) / T chi0)).
+  { rewrite <- (is_derive_unique _ _ _ H2). apply is_derive_unique.
+    unfold Feq. evar_last.
+    - apply (is_derive_comp (feq_in s) (fun p => xarg chi0 p)); [exact Hf | exact xarg_dpz].
+    - unfold scal; cbn; unfold mult; cbn. ring. }
+  assert (Hww : w * w = 1 - v chi0 * v chi0).
+  { unfold w. rewrite sqrt_sqrt by lra. ring. }
+  pose proof (source_algebra w E (T chi0) (v chi0) pz0 (vwall e) (b_gammaWall e) m' T' v'
+                (b__dfeq e (xarg chi0 pz0) s) (b_dchidxi e al) (dpzdrz e be)
+                Hww (Rgt_not_eq _ _ Hw) (Rgt_not_eq _ _ HE) HT0 Hd) as A.
+  cbv zeta in A.
+  rewrite D1, D2. unfold K1, K2. rewrite kron_same.
+  unfold source_k, b_source', b_source, b_dfEq, b_momentumWall, b_momentumPlasma, b_energyPlasma,
+    b_uwBaruPl, b_gammaPlasma, b_energy, b_temperature, b_v, b_vFull, b_msq, b_msqFull,
+    b_statistics, b_pz', b_pz, b_pp', b_pp, b_drzdpz, b_dpzdrz, b_velocityWall.
+  rewrite HdM, HdT, Hdv, <- ET, <- Ev, <- Em.
+  fold pz0 pp0 s. fold E. fold w.
+  change (1 / w * (E - v chi0 * pz0) / T chi0) with (xarg chi0 pz0) in *.
+  match type of A with ?l = ?r =>
+    transitivity l; [unfold Rdiv; ring | rewrite A; unfold Rdiv; ring] end.
+Qed.
+End Physics.
 
 (** the prefactors do not look at the collision array *)
 Lemma K_with_coll c e :
@@ -158,6 +297,30 @@ Theorem source_zero_homogeneous : forall e dM dT dv a al be ga,
   dM a al = 0 -> dT al = 0 -> dv al = 0 -> source_k e dM dT dv a al be ga = 0.
 Proof. exact source_zero_lem. Qed.
 Print Assumptions source_zero_homogeneous.
+
+Theorem dfeq_is_derivative_of_feq : forall e s x,
+  s * s = 1 -> ~ maxexp e < x -> exp x - s <> 0 ->
+  b__feq e x s = feq_in s x /\ is_derive (feq_in s) x (b__dfeq e x s).
+Proof. intros. split; [now apply feq_guard | now apply dfeq_derivative]. Qed.
+Print Assumptions dfeq_is_derivative_of_feq.
+
+Theorem source_is_minus_liouville_of_equilibrium :
+  forall (e : env) (a al be ga : nat) (T v m2 : R -> R) (chi0 T' v' m' : R),
+  is_derive T chi0 T' -> is_derive v chi0 v' -> is_derive m2 chi0 m' ->
+  T chi0 = Tprof e (S al) -> v chi0 = vprof e (S al) -> m2 chi0 = msqprof e a (S al) ->
+  T chi0 <> 0 -> 0 < 1 - v chi0 ^ 2 -> 0 < m2 chi0 + pzv e be ^ 2 + ppv e ga ^ 2 ->
+  stat e a * stat e a = 1 ->
+  ~ maxexp e < xarg e ga T v m2 chi0 (pzv e be) ->
+  exp (xarg e ga T v m2 chi0 (pzv e be)) - stat e a <> 0 ->
+  dpzdrz e be <> 0 ->
+  forall (dM : nat -> nat -> R) (dT dv : nat -> R) (DFchi DFpz : R),
+  dM a al = m' -> dT al = T' -> dv al = v' ->
+  is_derive (fun c => Feq e a ga T v m2 c (pzv e be)) chi0 DFchi ->
+  is_derive (fun p => Feq e a ga T v m2 chi0 p) (pzv e be) DFpz ->
+  source_k e dM dT dv a al be ga
+  = - (K1 e a al be ga a * DFchi - K2 e dM a al be a * (DFpz * dpzdrz e be)).
+Proof. exact source_is_minus_liouville_feq. Qed.
+Print Assumptions source_is_minus_liouville_of_equilibrium.
 
 Theorem collision_temperature_at_grid_point : forall e TChi a al be ga b i j k,
   collision_k e TChi a al be ga b i j k
